@@ -79,25 +79,32 @@ fn residual_ok(a: &[Vec<DR>], x: &[DR], b: &[DR], lsq: bool, second: bool) -> Re
         // norm-wise floors: a derivative component that is truly zero still carries rounding noise
         // proportional to the size of the WHOLE derivative block of the solution (conditioning acts on
         // the block, not on the single component)
-        let mut sg = 0.0_f64;
-        let mut sh = 0.0_f64;
-        for j in 0..n {
-            let xg = x[j].g.iter().fold(0.0_f64, |m, v| m.max(v.abs()));
-            let xh = x[j].h.iter().fold(0.0_f64, |m, v| m.max(v.abs()));
-            sg += mat[i][j].v.abs() * xg;
-            sh += mat[i][j].v.abs() * xh;
-        }
+        // (per variable / pair of variables: row norm of A times the largest derivative of ANY solution component
+        // with respect to that variable - the true value of a component can be zero by cancellation of terms
+        // of that size)
+        let rown: f64 = (0..n).map(|j| mat[i][j].v.abs()).sum();
+        let sgc: Vec<f64> = (0..nv).map(|c| rown * x.iter().fold(0.0_f64, |m, xj| m.max(xj.g[c].abs()))).collect();
+        // second order: besides |A| |x''|, the cross terms |A'_c| |x'_d| + |A'_d| |x'_c| (noise in a first derivative is
+        // multiplied by the other first derivative)
+        let gmaxc: Vec<f64> = (0..nv).map(|c| x.iter().fold(0.0_f64, |m, xj| m.max(xj.g[c].abs()))).collect();
+        // (largest row sum over ALL rows: the noise reaches this row's unknowns through the other rows)
+        let rowg: Vec<f64> = (0..nv).map(|c| (0..n).map(|ii| (0..n).map(|j| mat[ii][j].g[c].abs()).sum::<f64>()).fold(0.0_f64, f64::max)).collect();
+        let shc: Vec<f64> = if second {
+            (0..nv * nv).map(|c| rown * x.iter().fold(0.0_f64, |m, xj| m.max(xj.h[c].abs())) + rowg[c / nv] * gmaxc[c % nv] + rowg[c % nv] * gmaxc[c / nv]).collect()
+        } else {
+            vec![]
+        };
         if !(r.v.abs() <= TOL * s.v) {
             return Err(format!("row {}: value residual {:e} (scale {:e})", i, r.v, s.v));
         }
         for c in 0..nv {
-            if !(r.g[c].abs() <= TOL * s.g[c].max(s.v * gmax).max(sg)) {
+            if !(r.g[c].abs() <= TOL * s.g[c].max(s.v * gmax).max(sgc[c])) {
                 return Err(format!("row {}: first-derivative residual {:e} w.r.t. variable #{} (scale {:e})", i, r.g[c], c, s.g[c]));
             }
         }
         if second {
             for c in 0..nv * nv {
-                if !(r.h[c].abs() <= TOL * s.h[c].max(s.v * gmax * gmax).max(sh)) {
+                if !(r.h[c].abs() <= TOL * s.h[c].max(s.v * gmax * gmax).max(shc[c])) {
                     return Err(format!("row {}: second-derivative residual {:e} for pair ({}, {}) (scale {:e})", i, r.h[c], c / nv, c % nv, s.h[c]));
                 }
             }
@@ -408,7 +415,7 @@ fn pattern_system(n: usize, pattern: u32) -> Sys {
 }
 
 fn dominant_system(n: usize) -> Sys {
-    let a: Vec<Vec<f64>> = (0..n).map(|i| (0..n).map(|j| if i == j { 6.0 + i as f64 } else { GEN[(i * 7 + j * 5 + 3) % 24] * 0.45 }).collect()).collect();
+    let a: Vec<Vec<f64>> = (0..n).map(|i| (0..n).map(|j| if i == j { 6.0 + i as f64 + if n > 8 { n as f64 } else { 0.0 } } else { GEN[(i * 7 + j * 5 + 3) % 24] * 0.45 }).collect()).collect();
     let b: Vec<f64> = (0..n).map(|i| GEN[(i * 5 + 2) % 24]).collect();
     Sys { a, b }
 }
@@ -453,6 +460,26 @@ pub fn check(case: &Case, idx: u64, acc: &mut Acc) {
             acc.nontrivial();
             acc.bump("systems with a tiny non-zero entry");
             run_system(&sys, false, false, case, &format!("tiny{}", n), idx, acc);
+            // other magnitudes: (factor on the one entry, factor on the whole system incl. right-hand side).
+            // The whole-system factor does not change the solution or the conditioning, only the absolute size
+            // of every number met during elimination.
+            for (vk, (tiny, scale)) in [(1e-7, 1.0), (1e-15, 1e9), (1e-4, 1e-9), (1.0, 1e-9), (1.0, 1e9)].iter().enumerate() {
+                let mut s2 = pattern_system(*n, *pattern);
+                s2.a[*i][*j] *= tiny;
+                match cond(&s2.a) {
+                    Some(c) if c < 1e4 => {}
+                    _ => continue,
+                }
+                for r in s2.a.iter_mut() {
+                    for v in r.iter_mut() {
+                        *v *= scale;
+                    }
+                }
+                for v in s2.b.iter_mut() {
+                    *v *= scale;
+                }
+                run_system(&s2, false, false, case, &format!("tiny{}/magnitude{}", n, vk), idx, acc);
+            }
             if idx % 211 == 0 {
                 acc.sample(|| serde_json::to_value(case).unwrap());
             }
@@ -470,13 +497,14 @@ pub fn check(case: &Case, idx: u64, acc: &mut Acc) {
             let x = run_system(&sys, false, false, case, &format!("permuted{}", n), idx, acc);
             // the same system with rows scaled by widely different factors (changes every pivot decision and
             // the magnitudes met during elimination, not the solution)
-            let scl = [1e6, 1.0, 1e-6, 3e3, 1e-3, 7e7, 2e-8, 1.0];
-            let scaled = Sys { a: sys.a.iter().enumerate().map(|(i, r)| r.iter().map(|v| v * scl[i % 8]).collect()).collect(), b: sys.b.iter().enumerate().map(|(i, v)| v * scl[i % 8]).collect() };
-            let xs = run_system(&scaled, false, false, case, &format!("row-scaled{}", n), idx, acc);
-            if let (Some(x), Some(xs)) = (&x, &xs) {
-                let m = x.iter().fold(0.0_f64, |m, v| m.max(v.abs()));
-                if x.iter().zip(xs.iter()).any(|(p, q)| !close_scaled(*p, *q, 1e-8, m)) {
-                    acc.violate(&format!("row-scaled{}/row-scaling-changes-answer", n), idx, serde_json::to_value(case).unwrap(), json!(x), json!(xs));
+            for (sk, scl) in [[1e6, 1.0, 1e-6, 3e3, 1e-3, 7e7, 2e-8, 1.0], [3e-8, 5e7, 1e7, 2e-7, 9e6, 1.0, 4e-8, 6e7]].iter().enumerate() {
+                let scaled = Sys { a: sys.a.iter().enumerate().map(|(i, r)| r.iter().map(|v| v * scl[i % 8]).collect()).collect(), b: sys.b.iter().enumerate().map(|(i, v)| v * scl[i % 8]).collect() };
+                let xs = run_system(&scaled, false, false, case, &format!("row-scaled{}{}", if sk == 0 { "" } else { "b/" }, n), idx, acc);
+                if let (Some(x), Some(xs)) = (&x, &xs) {
+                    let m = x.iter().fold(0.0_f64, |m, v| m.max(v.abs()));
+                    if x.iter().zip(xs.iter()).any(|(p, q)| !close_scaled(*p, *q, 1e-8, m)) {
+                        acc.violate(&format!("row-scaled{}/row-scaling-changes-answer", n), idx, serde_json::to_value(case).unwrap(), json!(x), json!(xs));
+                    }
                 }
             }
             // row order does not change the answer
@@ -562,6 +590,17 @@ pub fn cases(tier: Tier) -> Vec<Case> {
             out.push(Case::Permuted { n, perm: g });
         }
     }
+    // larger systems (beyond any small-size special handling): identity, reversal, a rotation, rotation + swap
+    for n in [9usize, 10, 12, 16, 17, 24, 33] {
+        let id: Vec<usize> = (0..n).collect();
+        let mut r = id.clone();
+        r.rotate_left(n / 3);
+        let mut rs = r.clone();
+        rs.swap(0, n / 2);
+        for g in [id.clone(), id.iter().rev().cloned().collect(), r, rs] {
+            out.push(Case::Permuted { n, perm: g });
+        }
+    }
     for n in 1..=6usize {
         for m in (n + 1)..=12usize {
             out.push(Case::Tall { m, n });
@@ -585,15 +624,15 @@ pub fn run(ctx: &Ctx, replay_file: Option<String>) -> ! {
         "square systems: EVERY zero/non-zero pattern of 1x1, 2x2, 3x3 matrices (and of 4x4: all 65 536 in the thorough \
          tier, every 7th in quick) filled from a fixed generic value table, kept when the reference condition number is \
          < 1e4; diagonally dominant generic matrices of size 4..5 (6) under EVERY row permutation and of size 6/7..8 \
-         under a generator set of permutations; tall m x n systems for all n <= 6 < m <= 12 with least squares. Each \
+         under a generator set of permutations, and of size 9, 10, 12, 16, 17, 24, 33 under four permutations; tall m x n systems for all n <= 6 < m <= 12 with least squares. Each \
          system is solved with dsolve on f64, Dual, Dual2 and Number (float and dual entries mixed) and with fdsolve \
          (float matrix) for right-hand sides of each type, under four taggings (every entry its own variable incl. \
          structurally zero entries, one shared variable, one variable per row, no variables on A); the float and \
          row-tagged Dual systems are also handed over in column-major memory order (transposed view, Fortran-order \
-         array); 2x2 / 3x3 patterns are repeated with one non-zero entry scaled to 1e-11 (tiny pivots). Oracle: the residual \
+         array); 2x2 / 3x3 patterns are repeated with one non-zero entry scaled to 1e-11 (tiny pivots), and again with that entry scaled by 1e-7 / 1e-15 / 1e-4 / 1 and the whole system (right-hand side included) by 1 / 1e9 / 1e-9 / 1e-9 / 1e9. Oracle: the residual \
          A x - b (A^T A x - A^T b for least squares) recomputed in a dense reference arithmetic vanishes in value, every \
          first and every second derivative component, each against its own scale sum |A||x| + |b|; the solution of a \
-         row-permuted system equals that of the unpermuted one, also when its rows are scaled by factors from 2e-8 to 7e7. Non-trivial: systems in which reference partial \
+         row-permuted system equals that of the unpermuted one, also when its rows are scaled by factors from 2e-8 to 7e7 (two scale vectors, one with the small rows first). Non-trivial: systems in which reference partial \
          pivoting swaps rows (per-column counts reported; every column must be a swap site).",
         json!({"cases": cs.len()}),
     )
